@@ -79,6 +79,11 @@ func newTrEnv(np int, app string, seed int64) *trEnv {
 	return e
 }
 
+// amount concretises an abstract amount: v units of 2^VERIF_SCALE_BITS (0 bits by default).
+func (e *trEnv) amount(v int) channel.Bal {
+	return new(big.Int).Lsh(big.NewInt(int64(v)), uint(EnvInt("VERIF_SCALE_BITS", 0)))
+}
+
 func (e *trEnv) alloc(s *trState) channel.Allocation {
 	al := channel.Allocation{}
 	for _, a := range s.Assets {
@@ -89,13 +94,13 @@ func (e *trEnv) alloc(s *trState) channel.Allocation {
 	for i, row := range s.Bals {
 		al.Balances[i] = make([]channel.Bal, len(row))
 		for j, v := range row {
-			al.Balances[i][j] = big.NewInt(int64(v))
+			al.Balances[i][j] = e.amount(v)
 		}
 	}
 	for _, l := range s.Locked {
 		bs := make([]channel.Bal, len(l.Bals))
 		for j, v := range l.Bals {
-			bs[j] = big.NewInt(int64(v))
+			bs[j] = e.amount(v)
 		}
 		al.Locked = append(al.Locked, *channel.NewSubAlloc(e.subIDs[l.ID], bs, nil))
 	}
@@ -291,10 +296,12 @@ type trReplay struct {
 	NP     int    `json:"np"`
 	App    string `json:"app"`
 	Case   string `json:"case"`
+	// ScaleBits: every amount of the case stands for that many units of 2^ScaleBits
+	ScaleBits int `json:"scale_bits"`
 }
 
 func replayLine(c *trCase, np int, app string) any {
-	return trReplay{Driver: "transition", NP: np, App: app, Case: c.line}
+	return trReplay{Driver: "transition", NP: np, App: app, Case: c.line, ScaleBits: EnvInt("VERIF_SCALE_BITS", 0)}
 }
 
 func trInitCase(env *trEnv, res *Result, c *trCase, me int) {
@@ -350,7 +357,11 @@ func trCaseOn(env *trEnv, res *Result, c *trCase, m *channel.StateMachine, me in
 		res.Add("evaluations", 1)
 		res.Seen("case", fmt.Sprintf("%s|%s|%v|%s", env.app, c.Mutant, want, c.Why[actor]))
 		desc := func() string {
-			return fmt.Sprintf("current %+v, candidate %+v (mutant %s), actor %d; specification: %v (%s)", *c.Cur, c.Cand, c.Mutant, actor, want, c.Why[actor])
+			unit := ""
+			if b := EnvInt("VERIF_SCALE_BITS", 0); b > 0 {
+				unit = fmt.Sprintf(" [amounts in units of 2^%d]", b)
+			}
+			return fmt.Sprintf("current %+v, candidate %+v (mutant %s), actor %d%s; specification: %v (%s)", *c.Cur, c.Cand, c.Mutant, actor, unit, want, c.Why[actor])
 		}
 		// CheckUpdate: read-only
 		err, pan := guard(func() error {
